@@ -512,18 +512,24 @@ def host_getattr(I, obj, name):
     if isinstance(obj, VDict):
         if name in DICT_METHODS:
             return BoundMethod(obj, meth('dict.' + name, DICT_METHODS[name]))
+        if hasattr(dict, name) and not name.startswith('__'):
+            raise Unsupported(f'dict.{name} is not modelled')     # never an AttributeError the code under analysis could catch
         return MISSING
     if isinstance(obj, VList):
         if name in LIST_METHODS:
             return BoundMethod(obj, meth('list.' + name, LIST_METHODS[name]))
+        if hasattr(list, name) and not name.startswith('__'):
+            raise Unsupported(f'list.{name} is not modelled')
         return MISSING
     if isinstance(obj, str):
-        if name in STR_METHODS:
-            return str_method(I, obj, name)
+        if name in STR_METHODS or (hasattr(str, name) and not name.startswith('__')):
+            return str_method(I, obj, name)       # concrete text: every pure str method is the real one
         return MISSING
     if isinstance(obj, Rope):
         if name in STR_METHODS:
             return Builtin('str.' + name, lambda I, *a, **k: rope_method(I, obj, name, a, k))
+        if hasattr(str, name) and not name.startswith('__'):
+            raise Unsupported(f'str.{name} on symbolic text is not modelled')
         return MISSING
     if isinstance(obj, tuple):
         if name == 'index':
